@@ -83,14 +83,15 @@ def run(cx):
         cx.ob('GUARD', 'Mesh::project_with_tol:reject', okn and len(nones) >= 1, 'None is returned only when there is no projection/normal or both angle tests fail', where=b.file)
     b = cx.fn(f'{M}::indices_in_tol')
     if b:
-        pushes = b.calls('Vec::push')
-        ok = len(pushes) == 1
+        from vpa import comp as CP
+        comps = [c for c in CP.comprehensions(cx, b, cx.retval(b)) if c.get('elem') is not None]
+        ok = len(comps) == 1
         if ok:
-            s = pushes[0]
-            v = cx.arg(s, 1)
-            e = match('(field 0 (itervar (call Iterator::enumerate (param points))))', v)
-            g = cx.guarded(b, s.bb, '(is (call *project_with_tol (param self) (field 1 (itervar (call Iterator::enumerate (param points)))) (param max_dist) (param max_angle) (param transform)) Some)', True)
-            ok = e is not None and g is not None
+            c = comps[0]
+            I = '(itervar (range 0 (len (param points))))'
+            ok = match('(param points)', c['src']) is not None and match(I, c['elem']) is not None and \
+                CP.has_cond(c, f'(is (call *project_with_tol (param self) (index (param points) {I}) (param max_dist) (param max_angle) (param transform)) Some)', True) and \
+                len([1 for a, p in c['conds']]) == 1
         cx.ob('GUARD', 'Mesh::indices_in_tol', ok, 'index i is reported exactly when project_with_tol(points[i], max_dist, max_angle, transform) is Some', where=b.file)
     E.enc(cx, M, ('shape', 'is_solid', 'uv'), constructors=[f'{M}::new', f'{M}::new_take_trimesh', f'{M}::new_with_uv', f'{M}::new_with_options'])
 
